@@ -1,3 +1,4 @@
+import PB.Gen.DbTime
 /-
 Model of the portbase-owned layers of /repo/database (C02, C03):
 
@@ -332,9 +333,33 @@ def Backend.hasBatch : Backend → Bool
 /-- `storage.Purger` -/
 def Backend.hasPurge : Backend → Bool
   | .bbolt => true | _ => false
-/-- `MaintainRecordStates` implemented (fstree, badger: `TODO`, returns nil). -/
+/-- `MaintainRecordStates` implemented (fstree, badger: `TODO`, returns nil) — as found in the source on this run
+    (`PB.Gen.DbTime`, regenerated by harness/cmd/extract/dbtime.go). -/
 def Backend.maintains : Backend → Bool
-  | .hashmap => true | .bbolt => true | _ => false
+  | .hashmap => PB.Gen.DbTime.hashmapMaintains | .bbolt => PB.Gen.DbTime.bboltMaintains
+  | .fstree => PB.Gen.DbTime.fstreeMaintains | .badger => PB.Gen.DbTime.badgerMaintains
+
+/-- First case of the decision switch in the backend's `MaintainRecordStates`, with the comparisons as they
+    stand in the source (regenerated): "expired and not marked deleted yet". -/
+def Backend.expiredCase (b : Backend) (m : Meta) (now thr : Int) (shadow : Bool) : Bool :=
+  match b with
+  | .hashmap => PB.Gen.DbTime.hashmapExpired m.deleted m.expires now thr shadow
+  | .bbolt => PB.Gen.DbTime.bboltExpired m.deleted m.expires now thr shadow
+  | _ => false
+
+/-- The stamp an expired record is marked deleted with under shadow delete (`meta.Deleted = meta.Expires`). -/
+def Backend.expiredMark (b : Backend) (m : Meta) (now thr : Int) : Int :=
+  match b with
+  | .hashmap => PB.Gen.DbTime.hashmapMark m.deleted m.expires now thr
+  | .bbolt => PB.Gen.DbTime.bboltMark m.deleted m.expires now thr
+  | _ => m.deleted
+
+/-- Second case of the switch: "deleted, and either no shadow delete or older than the purge threshold". -/
+def Backend.removeCase (b : Backend) (m : Meta) (now thr : Int) (shadow : Bool) : Bool :=
+  match b with
+  | .hashmap => PB.Gen.DbTime.hashmapRemove m.deleted m.expires now thr shadow
+  | .bbolt => PB.Gen.DbTime.bboltRemove m.deleted m.expires now thr shadow
+  | _ => false
 
 structure Cfg where
   backend : Backend := .hashmap
@@ -381,12 +406,15 @@ def Query.selects (q : Query) (loc int : Bool) (now : Int) (r : Rec) : Bool :=
 def storeQuery (s : Store) (q : Query) (loc int : Bool) (now : Int) : List Rec :=
   s.filter (q.selects loc int now)
 
-/-- `MaintainRecordStates` of hashmap and bbolt, one record. `none` = physically removed. -/
+/-- `MaintainRecordStates` of hashmap and bbolt, one record. `none` = physically removed.
+    The switch: first case — with shadow delete mark the record deleted, write it back and `continue`, otherwise
+    `fallthrough` to the body of the second case, the physical delete. The case conditions and the stamp are the
+    source's (`Backend.expiredCase` / `expiredMark` / `removeCase` over `PB.Gen.DbTime`). -/
 def maintainRec (cfg : Cfg) (now thr : Int) (r : Rec) : Option Rec :=
-  if r.md.deleted = 0 ∧ r.md.expires > 0 ∧ r.md.expires < now then
-    if cfg.shadow then some (stored cfg.backend { r with md := { r.md with deleted := r.md.expires } })
+  if cfg.backend.expiredCase r.md now thr cfg.shadow then
+    if cfg.shadow then some (stored cfg.backend { r with md := { r.md with deleted := cfg.backend.expiredMark r.md now thr } })
     else none
-  else if r.md.deleted > 0 ∧ (!cfg.shadow ∨ r.md.deleted < thr) then none
+  else if cfg.backend.removeCase r.md now thr cfg.shadow then none
   else some r
 
 /-- One maintenance pass. `skip` is the set of keys the pass does not look at: inside one bbolt transaction
